@@ -66,6 +66,70 @@ def confirm(path, d, steps, backend):
     return out['debug']['confirmed'] or out['release']['confirmed'], out
 
 
+def alloc_kernel_lemma(files, rep):
+    """the inline bump allocator of the emitted WASM, decided for ALL pointer / memory-size values (checks/alloclemma.py)"""
+    from checks import alloclemma as A
+    import struct
+    info = dict(sequences=0, holds=0, programs=0)
+    if not A.vacuity_witness():
+        rep.inconclusive.append('alloc-kernel: unsupported: the vacuity witness of the allocator lemma is not falsified')
+        return info
+    seen = {}
+    for f in files:
+        try:
+            cj = common.compile_program(f, os.path.basename(f).startswith(('sc_', 'scheduler')))
+        except Exception:
+            continue
+        wat = (cj.get('wasm') or {}).get('wat')
+        if not wat:
+            continue
+        info['programs'] += 1
+        try:
+            for key, seq in A.extract_sequences(wat).items():
+                seen.setdefault(key, (seq, os.path.basename(f)))
+        except A.LemmaError as e:
+            rep.inconclusive.append('alloc-kernel: unsupported: %s (%s)' % (e, os.path.basename(f)))
+    if info['programs'] and not seen:
+        rep.inconclusive.append('alloc-kernel: unsupported: no inline allocation sequence recognised in any emitted module')
+    failed = None
+    for (size, _), (seq, prog) in sorted(seen.items(), key=lambda kv: kv[0][0]):
+        info['sequences'] += 1
+        try:
+            verdict, model = A.decide(seq, size)
+        except A.LemmaError as e:
+            rep.inconclusive.append('alloc-kernel: unsupported: %s (%s)' % (e, prog))
+            continue
+        if verdict == 'holds':
+            info['holds'] += 1
+        elif verdict == 'unknown':
+            rep.inconclusive.append('alloc-kernel[%s, %d bytes]: solver unknown' % (prog, size))
+        elif failed is None:
+            failed = dict(program=prog, size=size, model=model)
+    if failed is not None:
+        # replay: a program that allocates past the initial linear memory inside ONE tick, VM against WASM on the real runtimes
+        hp = os.path.join(common.CACHE, 'c03_heavy_tick.mmm')
+        os.makedirs(common.CACHE, exist_ok=True)
+        open(hp, 'w').write(A.HEAVY)
+        row = [struct.unpack('<Q', struct.pack('<d', 1.0))[0]]
+        rep.replays += 1
+        try:
+            rr = common.replay(dict(src_path=hp, backend='both', steps=2, inputs=[row, row], timeout_s=60), timeout=180)
+            vm, wa = rr.get('vm', {}), rr.get('wasm', {})
+            bad = bool(wa.get('panic') or wa.get('crash') or wa.get('timeout')) or (vm.get('outputs') != wa.get('outputs'))
+            detail = dict(vm=dict(outputs=vm.get('outputs'), panic=vm.get('panic')), wasm=dict(outputs=wa.get('outputs'), panic=wa.get('panic'), crash=wa.get('crash')))
+        except Exception as e:
+            bad, detail = False, dict(error=repr(e))
+        rec = dict(program='(emitted allocator sequence, first seen in %s)' % failed['program'], backend='wasm', mode='kernel', kind='oob',
+                   msg='the inline allocator hands out a %d-byte cell that is not backed by linear memory: alloc_ptr=%d with %d pages committed leaves %d pages and alloc_ptr=%d'
+                       % (failed['size'], failed['model']['alloc_ptr'], failed['model']['pages'], failed['model']['pages_after'], failed['model']['new_ptr']),
+                   where='wasmgen emit_runtime_alloc', model=failed['model'], replay=detail)
+        if bad:
+            rep.finding('wasm-alloc-kernel', rec)
+        else:
+            rep.inconclusive.append('alloc-kernel: the lemma fails for %s but a tick allocating past the initial memory runs alike on both real runtimes' % failed['model'])
+    return info
+
+
 def run(tier, seed):
     quick = tier == 'quick'
     rep = Report(PID, tier, seed, 'model_checking')
@@ -84,6 +148,7 @@ def run(tier, seed):
                 jobs.append(('analysis', dict(cls=('checks.c03', 'SafetyAnalysis'), path=f, mir_paths=mirs, steps=st, mode=mode, backends=(be,),
                                               query_timeout_ms=qto, time_budget_s=budget, seed=seed)))
     res = run_jobs(jobs)
+    lemma = alloc_kernel_lemma(files, rep)
     npaths = nobl = 0
     for r in res:
         if not rep.absorb(r):
@@ -113,13 +178,14 @@ def run(tier, seed):
             rep.samples.append(dict(program=r['program'], backend=be, steps=r['steps'], feasible_paths=r['paths'],
                                     obligations_failed=len(r.get('panics', [])), solver=r.get('solver')))
     cov = dict(states=max(1, npaths), transitions=max(1, rep.stats['queries']), traces_validated_against_impl=rep.replays,
-               programs=len(rep.programs), corpus_groups=groups, steps_bmc=steps,
+               programs=len(rep.programs), corpus_groups=groups, steps_bmc=steps, alloc_kernel_lemma=lemma,
                bounds='corpus groups %s; per runtime: BMC %d dsp steps from the initial state + 1 inductive step from arbitrary state words '
                       '(delay indices < len); all input words symbolic; call depth <= 400; %d ms per query; %d s per program' % (groups, steps, qto, budget),
                obligation_kinds=['MIR assert terminators (overflow, bounds, div-by-zero, debug_assert)', 'panic!/unwrap/expect/unreachable reachable',
                                  'raw pointer arithmetic and from_raw_parts inside the allocation', 'get_unchecked index < len', 'SlotMap::get_unchecked key alive',
                                  'wasm traps', 'WASM host must not grow the state vector beyond the published layout', 'dsp returns the declared number of words',
-                                 'termination: step limit (5e6 MIR statements / 2e6 wasm instructions per path)'])
+                                 'termination: step limit (5e6 MIR statements / 2e6 wasm instructions per path)',
+                                 'kernel lemma: every distinct inline allocation sequence of the emitted WASM hands out a cell backed by linear memory, for ALL allocator pointers p <= M * 64 KiB and all committed sizes M <= 32768 pages (the growth path is dead code in every corpus run)'])
     assumptions = ['program dimension = finite corpus (near-miss type mutations and "every accepted program" are outside the claim)',
                    'std / slotmap / wasmtime callees are modelled (stubs_used); raw accesses are checked against the modelled allocation sizes',
                    'a failing obligation is reported only when the model reproduces on the real build (dev profile with --cfg mimium_verif bounds asserts, or release)']
